@@ -47,7 +47,8 @@
 (*     and then for the segment's extent; the stab walker ReadStab;         *)
 (* (D) the declarative view (NoteView) and the invariants that tie (C) to   *)
 (*     (A): EveryNoteOnce, ExtentConsumed, SectionViewEqualsSegmentView,    *)
-(*     NotesTile, DescRoundTrip, StabsExact, ImageCarriesExtent, the action *)
+(*     NotesTile, DescRoundTrip, StabsExact, ImageCarriesExtent,            *)
+(*     AlignOnlyInHeaders (mode "align", see below), the action             *)
 (*     properties WalkerProgress (off' >= off + 12 per yielded note) and    *)
 (*     WalkerVariant + the invariant NoStall (termination, safety form),    *)
 (*     and Termination (liveness form under WF on the walker steps; cfg     *)
@@ -72,10 +73,20 @@
 (* e_type must behave like ET_DYN), owner look-alikes x type codes (mode    *)
 (* "types"), property types of the processor range with payloads of 4, 8    *)
 (* and 16 bytes and property types newer than most readers' tables.         *)
+(* Mode "align" (third round): the alignment the headers declare for the    *)
+(* extent - p_align of the PT_NOTE entry and sh_addralign of the SHT_NOTE    *)
+(* section over (8, 4), (8, 8), (4, 8), (0, 0), (1, 1), (16, 16) - x extents  *)
+(* of one or two notes whose sizes tell 4-byte from 8-byte padding apart     *)
+(* (header + name = 4 mod 8, descriptor = 4 mod 8, e.g. a 20-byte build id,  *)
+(* followed by a further note), the extent starting at a multiple of 16 in   *)
+(* the file.  The property fixes the 4-byte padding and "section view =      *)
+(* segment view" for every extent: the walker is the same machine, and       *)
+(* AlignOnlyInHeaders shows that the declared alignment changes nothing but  *)
+(* the two header fields.                                                   *)
 (***************************************************************************)
 EXTENDS Elf, NoteWalk, Json, CSV, IOUtils
 
-CONSTANTS Modes,       \* subset of {"walk", "types", "desc", "stabs"}
+CONSTANTS Modes,       \* subset of {"walk", "types", "desc", "stabs", "align"}
           WalkCf,      \* file configurations of the size sweep
           Sizes,       \* namesz / descsz of the last note of an extent
           FirstSizes,  \* namesz / descsz of the notes before the last one
@@ -98,7 +109,10 @@ vars == <<Mode, cf, notes, props, stabs, phase, cs, ext, w, outs>>
 (* --------------------------- configurations ---------------------------- *)
 ClsLe == {<<32, TRUE>>, <<32, FALSE>>, <<64, TRUE>>, <<64, FALSE>>}
 \* et: e_type; core: the file kind (gABI: ET_CORE = 4 is the only core-file type)
-CfE(cls, le, et, machine, pad) == [cls |-> cls, le |-> le, core |-> (et = 4), et |-> et, machine |-> machine, pad |-> pad]
+\* palign / salign: p_align of the PT_NOTE entry / sh_addralign of the SHT_NOTE section; gap: bytes between the program
+\* header table and the extent
+CfE(cls, le, et, machine, pad) == [cls |-> cls, le |-> le, core |-> (et = 4), et |-> et, machine |-> machine, pad |-> pad,
+                                   palign |-> 4, salign |-> 4, gap |-> 0]
 Cf(cls, le, core, machine, pad) == CfE(cls, le, IF core THEN 4 ELSE 3, machine, pad)
 ETypesAll == {0, 1, 2, 3, 4, 65025, 65280, 65535}      \* NONE REL EXEC DYN CORE LOOS+1 LOPROC HIPROC
 ETypesQuick == {0, 1, 3, 4, 65025, 65535}
@@ -114,6 +128,16 @@ DescMachines(cls, le) == IF cls = 32 THEN (IF le THEN {3, 40, 8} ELSE {22, 20}) 
 DescCf == UNION {{CfE(c[1], c[2], et, m, pad) : m \in DescMachines(c[1], c[2]), et \in DescETypes, pad \in DescPads} : c \in ClsLe}
 StabCf == {Cf(c[1], c[2], FALSE, DefMachine(c[1], c[2]), 0) : c \in ClsLe}
 AllModes == {"walk", "types", "desc", "stabs"}
+AllModesAlign == AllModes \cup {"align"}
+\* mode "align": <<p_align, sh_addralign>>; the gap puts the extent at a multiple of 16 (ELF32: 52 + 32 + 12, ELF64: 64 + 56 + 8)
+AlignPairs == {<<8, 4>>, <<8, 8>>, <<4, 8>>, <<0, 0>>, <<1, 1>>, <<16, 16>>}
+AlignCf == {[c EXCEPT !.palign = a[1], !.salign = a[2], !.gap = IF c.cls = 32 THEN 12 ELSE 8] : c \in WalkCf, a \in AlignPairs}
+\* sizes of the first note (name x descriptor) and <<namesz, descsz>> of the note after it
+AlignNames == {0, 1, 4, 5}
+AlignDescs == {0, 3, 4, 8, 20}
+AlignSeconds == {<<4, 4>>, <<0, 0>>, <<5, 1>>}
+\* every name size of the sweep meets a descriptor size with which the 8-byte reading places the next note elsewhere
+ASSUME \A ns \in AlignNames : \E ds \in AlignDescs : NoteSize8(ns, ds) # NoteSize(ns, ds)
 Sizes8 == {0, 1, 2, 3, 4, 5, 8, 17}
 Sizes4 == {0, 1, 4, 17}
 Sizes4n == {0, 3, 5, 8}
@@ -324,9 +348,10 @@ DotStab == <<46, 115, 116, 97, 98>>                                  \* ".stab"
 NoteIm(c, data) ==
   LET n == N(Len(data))
       im0 == [Im0 EXCEPT !.cls = c.cls, !.le = c.le, !.machine = c.machine, !.etype = N(c.et),
-                         !.secs = <<Sec(DotNoteX, N(7), N(2), N(4096), data, n, Z, Z, N(4), Z)>>,
+                         !.gap = c.gap,
+                         !.secs = <<Sec(DotNoteX, N(7), N(2), N(4096), data, n, Z, Z, N(c.salign), Z)>>,
                          \* (Linux core dumps carry p_memsz = 0 in PT_NOTE: the file size alone delimits the notes)
-                         !.segs = <<Seg(N(4), N(4), Z, N(4096), N(4096), n, IF c.core THEN Z ELSE n, N(4))>>]
+                         !.segs = <<Seg(N(4), N(4), Z, N(4096), N(4096), n, IF c.core THEN Z ELSE n, N(c.palign))>>]
   IN [im0 EXCEPT !.segs[1].offset = N(SecOff(im0, 1))]
 StabIm(c, data) ==
   [Im0 EXCEPT !.cls = c.cls, !.le = c.le, !.machine = c.machine, !.etype = N(1),
@@ -345,7 +370,7 @@ W0 == [who |-> "none", off |-> 0, end |-> 0, pc |-> "halt", cur |-> NoCur]
 Outs0 == [sec |-> <<>>, seg |-> <<>>, secoff |-> 0, segoff |-> 0]
 Ext0 == [secstart |-> 0, secend |-> 0, segstart |-> 0, segend |-> 0, tail |-> 0]
 
-CfOf(m) == CASE m = "walk" -> WalkCf [] m = "types" -> TypesCf [] m = "desc" -> DescCf [] m = "stabs" -> StabCf
+CfOf(m) == CASE m = "walk" -> WalkCf [] m = "types" -> TypesCf [] m = "desc" -> DescCf [] m = "stabs" -> StabCf [] m = "align" -> AlignCf
 Init ==
   /\ Mode \in Modes
   /\ cf \in CfOf(Mode)
@@ -361,6 +386,13 @@ Keep == UNCHANGED <<Mode, cf, phase, cs, ext, w, outs>>
 AddRaw(ns, ds) ==
   /\ phase = "write" /\ Mode = "walk" /\ Len(notes) < MaxNotes
   /\ \A j \in 1..Len(notes) : Len(notes[j].name) \in FirstSizes /\ Len(notes[j].desc) \in FirstSizes
+  /\ notes' = Append(notes, RawNote(Len(notes) + 1, ns, ds, cf))
+  /\ UNCHANGED <<props, stabs>> /\ Keep
+
+\* mode "align": one note out of AlignNames x AlignDescs, optionally followed by one out of AlignSeconds
+AddAligned(ns, ds) ==
+  /\ phase = "write" /\ Mode = "align" /\ Len(notes) < 2
+  /\ IF notes = <<>> THEN ns \in AlignNames /\ ds \in AlignDescs ELSE <<ns, ds>> \in AlignSeconds
   /\ notes' = Append(notes, RawNote(Len(notes) + 1, ns, ds, cf))
   /\ UNCHANGED <<props, stabs>> /\ Keep
 
@@ -413,7 +445,10 @@ StartW(who, from, to) == [who |-> who, off |-> from, end |-> to, pc |-> "hdr", c
 Finish(tail) ==
   /\ phase = "write" /\ Mode # "stabs" /\ props = <<>>
   /\ (Mode = "types" => Len(notes) = 1) /\ (Mode = "desc" => DescDone)
-  /\ tail \in Tails /\ tail < NhdrSize /\ (tail # 0 => Mode = "walk" /\ Len(notes) <= TailNotes)
+  /\ (Mode = "align" => notes # <<>>)
+  /\ tail \in Tails /\ tail < NhdrSize /\ (tail # 0 => Mode \in {"walk", "align"} /\ Len(notes) <= TailNotes)
+  \* (mode "align": the only trailing padding is the one that fills the extent up to 8 bytes)
+  /\ (tail # 0 /\ Mode = "align" => tail = 4 /\ (Len(EncNotes(notes, cf)) % 8) = 4)
   /\ LET data == Extent(notes, cf, tail)
          im == NoteIm(cf, data)
          so == SecOff(im, 1)
@@ -482,6 +517,7 @@ HaltStab ==
 WalkStep == ReadHdr \/ SkipName \/ SkipDesc \/ Yield \/ Halt \/ ReadStab \/ HaltStab
 Next ==
   \/ \E ns \in Sizes, ds \in Sizes : AddRaw(ns, ds)
+  \/ \E ns \in AlignNames \cup {4, 0, 5}, ds \in AlignDescs \cup {4, 0, 1} : AddAligned(ns, ds)
   \/ \E ns \in OwnerSweep, t \in TypeSweep : AddTyped(ns, t)
   \/ \E sz \in Leads : AddLead(sz)
   \/ \E os \in AbiOsCodes : AddAbi(os)
@@ -539,7 +575,13 @@ DecodeDesc(k, bs, c) ==
 
 (* ------------------------------ emission ------------------------------- *)
 BareFinal == notes # <<>> /\ notes[Len(notes)].name = <<>> /\ notes[Len(notes)].desc = <<>> /\ ext.tail = 0
-Tag == IF Mode = "stabs" THEN "stabs" ELSE IF BareFinal THEN "bare-final" ELSE Mode
+Tag == IF Mode = "stabs" THEN "stabs"
+       ELSE IF Mode = "align" THEN "align/p_align=" \o ToString(cf.palign) \o "/sh_addralign=" \o ToString(cf.salign)
+       ELSE IF BareFinal THEN "bare-final" ELSE Mode
+\* does the 8-byte reading walk this extent differently (another place for some note, or for the end)?
+RECURSIVE Sum8(_, _)
+Sum8(ns, i) == IF i = 0 THEN 0 ELSE Sum8(ns, i - 1) + NoteSize8(Len(ns[i].name), Len(ns[i].desc))
+Alt8Differs == \E i \in 1..Len(notes) : Sum8(notes, i) # NoteOff(notes, i + 1, 0)
 Tables == [gnu |-> [i \in 1..Len(GnuTypes) |-> <<GnuTypes[i][1].d, GnuTypes[i][2]>>],
            core |-> [i \in 1..Len(CoreTypes) |-> <<CoreTypes[i][1].d, CoreTypes[i][2]>>],
            abi_os |-> [i \in 1..Len(AbiOsTab) |-> <<LEn(AbiOsTab[i][1], 4), AbiOsTab[i][2]>>],
@@ -547,7 +589,8 @@ Tables == [gnu |-> [i \in 1..Len(GnuTypes) |-> <<GnuTypes[i][1].d, GnuTypes[i][2
 Case == IF Mode = "stabs"
         THEN [mode |-> Mode, tag |-> Tag, cls |-> cf.cls, le |-> cf.le, chunks |-> cs, sec |-> 1, stabs |-> StabView(ext.secstart)]
         ELSE [mode |-> Mode, tag |-> Tag, cls |-> cf.cls, le |-> cf.le, core |-> cf.core, etype |-> cf.et, machine |-> cf.machine, chunks |-> cs,
-              sec |-> 1, seg |-> 0, ext |-> <<ext.secstart, ext.secend>>, notes |-> NotesView(ext.secstart)]
+              sec |-> 1, seg |-> 0, ext |-> <<ext.secstart, ext.secend>>, notes |-> NotesView(ext.secstart),
+              palign |-> cf.palign, salign |-> cf.salign, alt8 |-> Alt8Differs]
 Emit == /\ (phase = "done" => CSVWrite("%1$s", <<ToJson(Case)>>, IOEnv.OUT))
         /\ (phase = "write" /\ notes = <<>> /\ props = <<>> /\ stabs = <<>> /\ cf.cls = 32 /\ cf.le =>
               CSVWrite("%1$s", <<ToJson([tables |-> Tables])>>, IOEnv.OUT))
@@ -591,6 +634,19 @@ ImageCarriesExtent ==
       /\ \A i, j \in 1..Len(cs) : i < j => \/ Len(cs[i][2]) = 0 \/ Len(cs[j][2]) = 0
                                            \/ cs[i][1] + Len(cs[i][2]) * cs[i][3] <= cs[j][1]
                                            \/ cs[j][1] + Len(cs[j][2]) * cs[j][3] <= cs[i][1]
+\* the alignment the headers declare changes two header fields and nothing else: the same chunks at the same places but for
+\* the program header and the section header of the extent (the file is that of p_align = sh_addralign = 4, so the extent, the
+\* walk over it and the view are the same); the extent starts at a multiple of 16, so every declared alignment holds
+AlignOnlyInHeaders ==
+  Mode = "align" /\ phase = "sec" /\ w.pc = "hdr" /\ w.off = ext.secstart =>
+      LET data == Extent(notes, cf, ext.tail)
+          im == NoteIm(cf, data)
+          b == Chunks(NoteIm([cf EXCEPT !.palign = 4, !.salign = 4], data)) IN
+      /\ cs = Chunks(im) /\ Len(b) = Len(cs)
+      /\ \A i \in 1..Len(cs) : /\ cs[i][1] = b[i][1] /\ Len(cs[i][2]) = Len(b[i][2]) /\ cs[i][3] = b[i][3]
+                                /\ (cs[i] # b[i] => cs[i][1] = PhOff(im) \/ cs[i][1] = ShOff(im) + UserIndex(im, 1) * ShEnt(im))
+      /\ (ext.secstart % 16) = 0 /\ (4096 % 16) = 0
+      /\ (<<cf.palign, cf.salign>> # <<4, 4>> => cs # b)
 \* progress: no walker step moves backwards, and a yielded note advanced the cursor by at least a header
 WalkerProgress ==
   [][(Walking /\ phase' = phase) => /\ w'.off >= w.off
